@@ -432,10 +432,12 @@ def enum_item(p, m, r, case=None):
     if not isinstance(m, str):
         t, v = num_tok(m)
         return Item("attr", key, shape="enum:num", toks=[t], value=v)
+    case = case or r.choice(["upper", "lower", "asis", "title", "mixed"])
+    w = {"upper": m.upper(), "lower": m.lower(), "asis": m, "title": m.title(),
+         "mixed": "".join(c.upper() if i % 2 else c.lower() for i, c in enumerate(m))}[case]
     if (p.obj, key) in QUOTED_ENUM or (p.obj, key, m.lower()) in QUOTED_ENUM_MEMBERS:
-        return Item("attr", key, shape="enum:quoted", toks=[Tok("str", m, frozenset({"dq", "sq"}))], value=m)
-    case = case or r.choice(["upper", "lower", "asis", "title"])
-    w = {"upper": m.upper(), "lower": m.lower(), "asis": m, "title": m.title()}[case]
+        # written quoted (a bare word would be read as something else); a quoted string keeps the letter case it was typed in
+        return Item("attr", key, shape="enum:quoted", toks=[Tok("str", w, frozenset({"dq", "sq"}))], value=w)
     return Item("attr", key, shape="enum", toks=[Tok("word", w)], value=w)
 
 
